@@ -8,6 +8,7 @@
      - Initiator ATN carries DID/NAD like the other supervisory PDUs
      - Target answers a repeated RTOX request by retransmission unless it is itself waiting for it
      - Target.exchange(None) returns None when released before the first information PDU
+     - Target.activate resets the packet number (fixes/c04-target-reactivate-pni.diff)
      - request_retransmission accepts a retransmitted ACK when the pending request was a chained information PDU
        (an ACK answered to a NAK for a last information PDU stays "unrecoverable NFC-DEP transmission error",
        as tests/test_dep.py::test_exchange_retransmission_invalid_response demands)
@@ -617,6 +618,22 @@ Definition conversation (n fuel : nat) (ic : icfg) (tc : tcfg) (script : list (f
   (payloads : list (list Z)) (app : list (Z * list Z)) (timeout : Z) (release : option bool) : obs :=
   let w0 := mkw (tgt_init app) script 0 [] in
   let '(ir, w1) := ini_app n fuel ic tc 0 payloads timeout w0 in
+  let w2 := ini_deactivate ic tc release w1 in
+  let t := tgt_close (w_t w2) in
+  mkobs (rev (w_log w2)) ir (t_out t) (t_rtx t) (t_act t).
+
+(* ---- activating the same protocol objects again (a new link after an earlier conversation) ----
+   Initiator.activate sets self.pni = 0; Target.activate (repaired, fixes/c04-target-reactivate-pni.diff) sets
+   self.pni = None, stores the new first command and the new parameters.  Nothing else of the protocol state
+   survives: dep_res / send_data / recv_data are locals of exchange(). *)
+Definition ini_activate (p_old : Z) : Z := 0.
+Definition tgt_activate (t_old : tgt) (app : list (Z * list Z)) : tgt := mktgt None TListen None app [] [] false.
+
+(* a conversation on objects that were used before: old packet number p_old, old target state t_old *)
+Definition conversation_after (p_old : Z) (t_old : tgt) (n fuel : nat) (ic : icfg) (tc : tcfg) (script : list (fate * fate))
+  (payloads : list (list Z)) (app : list (Z * list Z)) (timeout : Z) (release : option bool) : obs :=
+  let w0 := mkw (tgt_activate t_old app) script 0 [] in
+  let '(ir, w1) := ini_app n fuel ic tc (ini_activate p_old) payloads timeout w0 in
   let w2 := ini_deactivate ic tc release w1 in
   let t := tgt_close (w_t w2) in
   mkobs (rev (w_log w2)) ir (t_out t) (t_rtx t) (t_act t).
